@@ -2979,6 +2979,11 @@ class PGPKey(Armorable, ParentRef, PGPObject):
                         keys.pop((pgpobj.fingerprint.keyid, pgpobj.is_public), None)
                         keys[(pgpobj.fingerprint.keyid, pgpobj.is_public)] = pgpobj
 
+                    elif not keys and pgpobj is self:
+                        # a subkey that was exported on its own (bytes(subkey)): the object being filled holds it,
+                        # with its binding signatures; there is no primary key in the input to attach it to
+                        pass
+
                     else:
                         keys[next(reversed(keys))] |= pgpobj
 
